@@ -162,49 +162,7 @@ def run(ctx):
 
     # the tokenizer that finds the closing quotation mark runs BEFORE unescape_string: it must skip an escaped quote, or noodles'
     # own `\"` ends the value early (genuine defect F27, repaired)
-    fps = ctx.anchor("C18.R3", "noodles_gtf::record::attributes::field::parse_string")
-    if fps is not None:
-        vals = set()
-        for g in fb.family(fps.key):
-            for blk in g.blocks:
-                for st in blk["s"]:
-                    if st[0] == "=":
-                        for o in R.rvalue_operands(st[2]):
-                            k = C.op_const(o)
-                            if k is not None and k.get("ty") == "u8" and isinstance(k.get("v"), int):
-                                vals.add(k["v"])
-                t = blk["t"]
-                if t[0] == "sw":
-                    vals |= {v for v, _tg in t[2] if isinstance(v, int)}
-                elif t[0] == "call":
-                    for o in t[1].get("args") or []:
-                        k = C.op_const(o)
-                        if k is not None and k.get("ty") == "u8" and isinstance(k.get("v"), int):
-                            vals.add(k["v"])
-        # whether a quotation mark is escaped depends on the parity of the backslashes before it (`\\\\"` closes, `\\"` does not): the scan
-        # carries a state that is set by an escape byte and cleared by the byte after it (a bool place stored with both constants)
-        stores = {}
-        for g in fb.family(fps.key):
-            for blk in g.blocks:
-                for st in blk["s"]:
-                    if st[0] == "=" and st[2][0] == "use":
-                        k = C.op_const(st[2][1])
-                        if k is not None and k.get("ty") == "bool" and st[1][0] != 0:
-                            stores.setdefault((g.key, json.dumps(st[1])), set()).add(k.get("v"))
-        stateful = any(v >= {0, 1} for v in stores.values())
-        if 0x22 in vals and 0x5c in vals and not stateful:
-            ctx.violation("C18.R3", "C18.R3/tokenizer-escape-not-stateful/" + fps.key,
-                          "parse_string compares with the escape character but carries no escaped/unescaped state through the scan: looking only "
-                          "at the byte before a quotation mark takes the second half of an escaped backslash for an escape, so a value ending "
-                          "with a backslash (written as `\\\\\"`) is not closed where the writer closed it", fps.loc())
-        elif 0x22 in vals and 0x5c in vals:
-            ctx.ok("C18.R3", fps.key + " :: the closing-quote scan knows the escape character and carries an escape state", "compares with 0x22 and 0x5c", fps.loc())
-        elif 0x22 in vals:
-            ctx.violation("C18.R3", "C18.R3/tokenizer-ignores-escape/" + fps.key,
-                          "parse_string ends a quoted GTF value at the first `\"` without regard to a preceding backslash, while the writer emits "
-                          "`\\\"` for a quotation mark inside a value: noodles' own output is split inside the value", fps.loc())
-        else:
-            ctx.violation("C18.R3", "C18.R3/ANCHOR-MISSING/%s/quote" % fps.key, "parse_string no longer scans for the quotation mark", fps.loc())
+    quote_scanner_rule(ctx, "C18.R3", "noodles_gtf::record::attributes::field::parse_string", "GTF")
 
     # the owned Comment line is built from the accessor that strips the `#` the writer prepends (genuine defect F28: it was built from
     # the whole line, so a comment came back with its prefix and was re-written as a `##` directive)
@@ -318,3 +276,56 @@ def _from_constant(fn, op, depth=0):
         if not all(_from_constant(fn, o, depth + 1) for o in ops):
             return False
     return True
+
+
+def quote_scanner_rule(ctx, rule, key, what):
+    """The function that finds the closing quotation mark of a quoted value (it runs BEFORE unescaping): it compares with `"` and with the
+    escape character, and it carries an escaped/unescaped state through the scan. Whether a quotation mark is escaped depends on the parity
+    of the backslashes before it (`\\\\"` closes, `\\"` does not), so a look-behind of one byte is wrong for a value ending with a backslash."""
+    fb = ctx.fb
+    fps = ctx.anchor(rule, key)
+    if fps is None:
+        return
+    ctx.saw_fn(fps)
+    vals = set()
+    stores = {}
+    for g in fb.family(fps.key):
+        # the state lives in the scan: stores inside a loop body, or anywhere in a closure (the body of `position(|c| ..)`)
+        inloop = set(range(len(g.blocks))) if g.is_closure else set().union(*[bd for _h, bd in C.natural_loops(g)] or [set()])
+        for bi, blk in enumerate(g.blocks):
+            for st in blk["s"]:
+                if st[0] == "=":
+                    for o in R.rvalue_operands(st[2]):
+                        k = C.op_const(o)
+                        if k is not None and k.get("ty") == "u8" and isinstance(k.get("v"), int):
+                            vals.add(k["v"])
+                    if bi in inloop and st[2][0] == "use":
+                        k = C.op_const(st[2][1])
+                        if k is not None and k.get("ty") == "bool" and st[1][0] != 0:
+                            stores.setdefault((g.key, json.dumps(st[1])), set()).add(k.get("v"))
+                    if bi in inloop and st[2][0] == "agg" and st[2][1] == "adt" and st[1][0] != 0 and not st[2][2].startswith(("core::", "alloc::", "std::")):
+                        # an enum state (`state = State::Escape`): two different variants stored to one place
+                        stores.setdefault((g.key, json.dumps(st[1])), set()).add(st[2][3])
+            t = blk["t"]
+            if t[0] == "sw":
+                vals |= {v for v, _tg in t[2] if isinstance(v, int)}
+            elif t[0] == "call":
+                for o in t[1].get("args") or []:
+                    k = C.op_const(o)
+                    if k is not None and k.get("ty") == "u8" and isinstance(k.get("v"), int):
+                        vals.add(k["v"])
+    stateful = any(len(v) >= 2 for v in stores.values())
+    short = fps.key.split("::")[-1]
+    if 0x22 in vals and 0x5c in vals and not stateful:
+        ctx.violation(rule, "%s/tokenizer-escape-not-stateful/%s" % (rule, fps.key),
+                      "%s compares with the escape character but carries no escaped/unescaped state through the scan: looking only "
+                      "at the byte before a quotation mark takes the second half of an escaped backslash for an escape, so a %s value ending "
+                      "with a backslash (written as `\\\\\"`) is not closed where the writer closed it" % (short, what), fps.loc())
+    elif 0x22 in vals and 0x5c in vals:
+        ctx.ok(rule, fps.key + " :: the closing-quote scan knows the escape character and carries an escape state", "compares with 0x22 and 0x5c", fps.loc())
+    elif 0x22 in vals:
+        ctx.violation(rule, "%s/tokenizer-ignores-escape/%s" % (rule, fps.key),
+                      "%s ends a quoted %s value at the first `\"` without regard to a preceding backslash, while the writer emits "
+                      "`\\\"` for a quotation mark inside a value: noodles' own output is split inside the value" % (short, what), fps.loc())
+    else:
+        ctx.violation(rule, "%s/ANCHOR-MISSING/%s/quote" % (rule, fps.key), "%s no longer scans for the quotation mark" % short, fps.loc())
